@@ -11,7 +11,7 @@ COMMON_TB = [
 ]
 
 
-def P(bin, partial=(), tb=(), assumptions=(), features=None, explanation="", timeout_s=None, model_is_spec=()):
+def P(bin, partial=(), tb=(), assumptions=(), features=None, explanation="", timeout_s=None, model_is_spec=(), pregen=None, model_search=None):
     """bin: harness binary name (src/bin/<bin>.rs); the Lean driver is drv_<bin>, root Driver.<BIN>.
     partial: what is NOT covered by a theorem (run-only or outside the model).
     model_is_spec: request-line first tokens for which the Lean model IS the specification by a
@@ -26,6 +26,8 @@ def P(bin, partial=(), tb=(), assumptions=(), features=None, explanation="", tim
         "partial": list(partial),
         "explanation": explanation,
         "model_is_spec": list(model_is_spec),
+        "pregen": pregen,
+        "model_search": model_search,
         "timeout_s": timeout_s or {"quick": 900, "thorough": 3000},
     }
 
